@@ -32,7 +32,7 @@ Extraction "model.ml"
   egct_decrypt egct_add egdk_decrypt egdk_from_shares egp_verify egp_verify_and_decrypt
   sk_new sk_from_hash sk_split_entropy
   pk_to_bytes pk_try_from pop_to_bytes pop_try_from sk_to_bytes sk_try_from
-  sk_enum_to_bytes sk_enum_try_from sk_enum_from_be_bytes
+  sk_enum_to_bytes sk_enum_try_from sk_enum_from_be_bytes sk_enum_from_le_bytes sk_enum_to_le_bytes
   tagged_to_bytes signature_try_from multisig_try_from commitment_try_from
   pok_to_bytes pok_try_from pokts_to_bytes pokts_try_from
   share_to_bytes sk_share_try_from pk_share_try_from eg_share_try_from inner_share_try_from
